@@ -4,6 +4,7 @@
 # VERIF_WORKERS applies per check; changes are evaluated one after the other.
 cd "$(dirname "$0")" || exit 2
 rc=0
+VERIF_MAX_REPORT=1; VERIF_MINIMISE_S=10; export VERIF_MAX_REPORT VERIF_MINIMISE_S
 for d in seeded/${1:-}*/; do
   id=$(basename "$d")
   [ -f "$d/meta.json" ] || continue
